@@ -4,7 +4,12 @@ Oracle for C14.
 case     : `stack=tlcp|dtlcp kind=<kind> op=enc f=<fields>`   |   `… op=dec data=<hex>`  |  `… op=cap data=<hex>`
            (cap: a message captured from a real handshake; judged like dec and additionally required to
            be canonical and inside the constructors' shape `Model.Emitted`, tag `emitted`)
-observed : enc: `enc=ok data=<hex> dec=ok g=<fields>` | `enc=ok data=<hex> dec=rej|panic` | `enc=err|panic`
+           `stack=… kind=clientHello op=emit sn=<hex> np=<n/hex…> curves=<nil|hex> tas=<n/ty.id…> cs=<nil|hex> nc=<n>
+            rnd=<hex> t=<unix> ck=<none|hex>`: a client CONFIGURATION (ServerName, NextProtos, CurvePreferences,
+           TrustedCAIndications, CipherSuites, number of certificates, what Rand and Time deliver; dtlcp: the
+           cookie of a scripted HelloVerifyRequest); the real client ran alone and what it put on the wire was cut out
+observed : emit: `mk=err` (nothing sent) | `mk=ok n=<hellos sent> data=<hex of the last one> <as dec>`
+           enc: `enc=ok data=<hex> dec=ok g=<fields>` | `enc=ok data=<hex> dec=rej|panic` | `enc=err|panic`
            dec: `dec=ok g=<fields> raw=<0|1> re=<ok|diff|err|panic>` | `dec=rej` | `dec=panic`
 
 `Verdict.model` is what the model of the Go code predicts.  `Verdict.spec` judges the property on
@@ -17,6 +22,10 @@ the observation:
   inner        an accepted input, well framed, whose body is not exactly the standard's grammar;
   canonical    a strictly decodable (canonical) input that is refused, decoded to other fields,
                or whose decoded fields do not re-encode to the same bytes.
+  emitted      op=cap: a message captured from a real handshake is not canonical / outside the
+               constructors' shape;
+  undecodable  op=emit: the client, run on the case's configuration, put a ClientHello on the wire that
+               the library's own decoder refuses.
 `note` is the branch class of the model (kind.op.outcome) for the evidence histogram.
 -/
 import Gotlcp.Oracle.Common
@@ -328,20 +337,23 @@ def judgeEnc (st : Stack) (k : Kind) (ks : String) (ct ot : List String) : Optio
           else none
   pure { model := model, spec := spec, note := s!"{ks}.enc.{cls}.{if wf then "wf" else "loose"}" }
 
+/-- what the model predicts for the driver's `runDec` of `data`, and its branch class -/
+def modelDecLine (st : Stack) (k : Kind) (data : Bytes) : String × String :=
+  match modelDecode st k data with
+  | .ok (h, m) =>
+    let raw := match st, k with
+      | .tlcp, .serverHelloDone => decide (Codec.encServerHelloDone Codec.codesT = some data)
+      | _, _ => true
+    let re := match modelEncode st k h m with
+      | none => "err"
+      | some b => if b == data then "ok" else "diff"
+    (s!"dec=ok g={render st k h m} raw={b01 raw} re={re}", "ok." ++ re)
+  | .reject => ("dec=rej", "rej")
+  | .panic => ("dec=panic", "panic")
+
 def judgeDec (captured : Bool) (st : Stack) (k : Kind) (ks : String) (ct ot : List String) : Option Verdict := do
   let data ← kvHex ct "data"
-  let (model, cls) :=
-    match modelDecode st k data with
-    | .ok (h, m) =>
-      let raw := match st, k with
-        | .tlcp, .serverHelloDone => decide (Codec.encServerHelloDone Codec.codesT = some data)
-        | _, _ => true
-      let re := match modelEncode st k h m with
-        | none => "err"
-        | some b => if b == data then "ok" else "diff"
-      (s!"dec=ok g={render st k h m} raw={b01 raw} re={re}", "ok." ++ re)
-    | .reject => ("dec=rej", "rej")
-    | .panic => ("dec=panic", "panic")
+  let (model, cls) := modelDecLine st k data
   let obsDec := (kv ot "dec").getD ""
   let strict := specStrict st k data
   let spec : Option (String × String) :=
@@ -367,6 +379,79 @@ def judgeDec (captured : Bool) (st : Stack) (k : Kind) (ks : String) (ct ot : Li
   let opn := if captured then "cap" else "dec"
   pure { model := model, spec := spec, note := s!"{ks}.{opn}.{cls}{canon}" }
 
+/-! ### configuration-level cases: the real client's ClientHello against `Model.Make` -/
+
+def optW16s (f : List String) (k : String) : Option (Option (List W16)) := do
+  let v ← kv f k
+  if v == "nil" then pure none else (Hex.decode v).bind pairs |>.map some
+
+def parseCfg (st : Stack) (ct : List String) : Option (Make.ClientCfg × Option Bytes) := do
+  let sn ← kvHex ct "sn"
+  let np ← (kv ct "np").bind parseList
+  let curves ← optW16s ct "curves"
+  let tas ← (kv ct "tas").bind parseTAs
+  let cs ← optW16s ct "cs"
+  let nc ← (kv ct "nc").bind String.toNat?
+  let rnd ← kvHex ct "rnd"
+  let t ← (kv ct "t").bind String.toNat?
+  let ck ← (match st with
+    | .tlcp => some none
+    | .dtlcp => do
+      let v ← kv ct "ck"
+      if v == "none" then pure none else (Hex.decode v).map some)
+  pure (⟨sn, np, curves, tas, cs.map (·.map W16.toNat), nc, rnd, t, [], []⟩, ck)
+
+/-- the ClientHello messages the model's client puts on the wire for a configuration, in order
+(dtlcp: a second one, message_seq 1, carrying the cookie of the scripted HelloVerifyRequest) -/
+def modelEmit (st : Stack) (cfg : Make.ClientCfg) (ck : Option Bytes) : List Bytes :=
+  match st with
+  | .tlcp =>
+    match Make.makeClientHello Emitted.paramsT Make.makeT cfg with
+    | none => []
+    | some m => (Codec.encClientHello Codec.codesT m).toList
+  | .dtlcp =>
+    match Make.makeClientHello Emitted.paramsD Make.makeD cfg with
+    | none => []
+    | some m =>
+      match CodecDtlcp.encClientHello Codec.codesD ⟨(0, 0), 0, 0⟩ m with
+      | none => []
+      | some b1 =>
+        match ck with
+        | none => [b1]
+        | some c => b1 :: (CodecDtlcp.encClientHello Codec.codesD ⟨(0, 1), 0, 0⟩ { m with cookie := c }).toList
+
+/-- the hypotheses of `C14_makeClientHello_decodes_*` on this configuration (reported in the note) -/
+def cfgFits (st : Stack) (cfg : Make.ClientCfg) (ck : Option Bytes) : Bool :=
+  let (p, q) := match st with
+    | .tlcp => (Emitted.paramsT, Make.makeT)
+    | .dtlcp => (Emitted.paramsD, Make.makeD)
+  match Make.makeClientHello p q { cfg with cookie := ck.getD [] } with
+  | none => false
+  | some m => cfg.tas.all Spec.Codec.wfTA && decide (0 < m.suites.length) && decide ((ck.getD []).length < 256) &&
+      decide (Spec.Codec.clientExtLen m < 65536)
+
+def judgeEmit (st : Stack) (ks : String) (ct ot : List String) : Option Verdict := do
+  let (cfg, ck) ← parseCfg st ct
+  let hellos := modelEmit st cfg ck
+  let (model, cls) :=
+    match hellos.getLast? with
+    | none => ("mk=err", "err")
+    | some data =>
+      let (line, c) := modelDecLine st .clientHello data
+      (s!"mk=ok n={hellos.length} data={Hex.encode data} {line}", c)
+  let fits := cfgFits st cfg ck
+  let obsMk := (kv ot "mk").getD ""
+  let obsDec := (kv ot "dec").getD ""
+  -- the property: whatever the client put on the wire decodes with the same library
+  let spec : Option (String × String) :=
+    if obsMk == "err" then none
+    else if obsMk != "ok" then some ("shape", "no mk token")
+    else if obsDec == "panic" then some ("panic", "unmarshal panicked on a ClientHello the client emitted")
+    else if obsDec != "ok" then
+      some ("undecodable", "the client put a ClientHello on the wire that the library's own decoder refuses")
+    else none
+  pure { model := model, spec := spec, note := s!"{ks}.emit.{cls}.{if fits then "fit" else "loose"}" }
+
 def judge (c o : String) : Option Verdict := do
   let ct := tokens c
   let ot := tokens o
@@ -377,6 +462,7 @@ def judge (c o : String) : Option Verdict := do
   if op == "enc" then judgeEnc st k ks ct ot
   else if op == "dec" then judgeDec false st k ks ct ot
   else if op == "cap" then judgeDec true st k ks ct ot
+  else if op == "emit" then (if k == .clientHello then judgeEmit st ks ct ot else none)
   else none
 
 end Gotlcp.Oracle.C14
